@@ -100,9 +100,10 @@ struct ReadOutcome
   bool timedOut{false};      // nothing more arrived within the quiet period
 };
 
-// Read until EOF / error / `want` bytes (0 = unknown until headers are parsed)
-// / nothing for `quiet`. If `http`, parse the header block for Content-Length.
-ReadOutcome drain(int fd, bool http, std::size_t wantRaw, std::chrono::milliseconds quiet)
+// Read until EOF / error / nothing more for `quiet` (keeps reading past the
+// expected length so the close that must follow is observed). If `http`, parse
+// the header block for Content-Length.
+ReadOutcome drain(int fd, bool http, std::chrono::milliseconds quiet)
 {
   ReadOutcome o;
   std::string head;
@@ -110,15 +111,6 @@ ReadOutcome drain(int fd, bool http, std::size_t wantRaw, std::chrono::milliseco
   auto hardDeadline = std::chrono::steady_clock::now() + 8s;
   for (;;)
   {
-    std::size_t want = wantRaw;
-    if (http && o.headerLen != 0 && o.contentLength >= 0)
-    {
-      want = o.headerLen + static_cast<std::size_t>(o.contentLength);
-    }
-    if (want != 0 && o.total >= want && !http)
-    {
-      // raw scenario: keep reading to observe the close that must follow
-    }
     pollfd p{fd, POLLIN, 0};
     int pr = ::poll(&p, 1, static_cast<int>(quiet.count()));
     if (pr <= 0 || std::chrono::steady_clock::now() > hardDeadline)
@@ -137,7 +129,6 @@ ReadOutcome drain(int fd, bool http, std::size_t wantRaw, std::chrono::milliseco
       o.reset = true;
       return o;
     }
-    std::size_t bodyFrom = 0;
     if (http && o.headerLen == 0)
     {
       head.append(buf.data(), static_cast<std::size_t>(n));
@@ -167,7 +158,7 @@ ReadOutcome drain(int fd, bool http, std::size_t wantRaw, std::chrono::milliseco
       o.total += static_cast<std::size_t>(n);
       continue;
     }
-    for (std::size_t i = bodyFrom; i < static_cast<std::size_t>(n); ++i)
+    for (std::size_t i = 0; i < static_cast<std::size_t>(n); ++i)
     {
       if (buf[i] != 'x')
       {
@@ -205,7 +196,7 @@ int httpScenario(int port, bool connectionClose, std::string &line)
     return 2;
   }
   std::this_thread::sleep_for(300ms); // let the server run send + close before we read
-  ReadOutcome o = drain(fd, true, 0, 1000ms);
+  ReadOutcome o = drain(fd, true, 1000ms);
   ::close(fd);
 
   if (o.headerLen == 0 || o.contentLength < 0)
@@ -278,7 +269,7 @@ int transportScenario(std::string &line)
   char go = 'g';
   (void)::send(fd, &go, 1, MSG_NOSIGNAL);
   std::this_thread::sleep_for(300ms);
-  ReadOutcome o = drain(fd, false, kBodySize, 1000ms);
+  ReadOutcome o = drain(fd, false, 1000ms);
   ::close(fd);
   std::this_thread::sleep_for(50ms);
   int c = closes.load();
